@@ -27,7 +27,7 @@ SPEC = {
     "C16": [("MD.Props.C16", None)],
     "C17": [("MD.Props.C17", None)],
     "C18": [("MD.Props.C18", None)],
-    "C19": [("MD.Props.C19", None), ("MD.Props.C19b", None)],
+    "C19": [("MD.Props.C19", None), ("MD.Props.C19b", None), ("MD.Props.C19c", None)],
     "C20": [("MD.Props.C20", None)],
 }
 FALLBACK_MODULE = {"C04": "MD.Proofs.ScoreReal", "C05": "MD.Proofs.ScoreReal", "C14": "MD.Proofs.ScoreReal"}
